@@ -126,7 +126,8 @@ def wiring_cases(draw, tier):
                        st.integers(1, top)))
     m = draw(st.sampled_from(GRID)); r = draw(st.sampled_from(GRID))
     return dict(layers=L, mult=[m.numerator, m.denominator], ratio=[r.numerator, r.denominator],
-                default_rule=draw(st.integers(0, 5)) == 0, which=draw(st.sampled_from(["decoder", "stack"])))
+                default_rule=draw(st.integers(0, 5)) == 0, which=draw(st.sampled_from(["decoder", "stack"])),
+                convert=draw(st.sampled_from([None, None, "bfloat16", "half", "double", "float"])))
 
 
 def run_wiring(case) -> CaseResult:
@@ -154,6 +155,10 @@ def run_wiring(case) -> CaseResult:
     except Exception as e:  # noqa: BLE001
         res.fail(exc_bucket("C07.wiring.raises", e), f"{e}")
         return res
+    if case.get("convert"):
+        # a dtype conversion of the constructed model must not touch the residual weights (they are hyper-parameters, not tensors)
+        stack = getattr(stack, case["convert"])() if case["convert"] != "bfloat16" else stack.to(torch.bfloat16)
+        res.labels.append("converted:" + case["convert"])
     layers = list(stack)
     if len(layers) != L:
         res.fail("C07.wiring.layer-count", f"{len(layers)} layers built for layers={L}")
